@@ -63,6 +63,17 @@ MISPLACED = {
 }
 
 
+# (what came before, order-sensitive continuations that are valid in the state reached there)
+ORDER_CTX = [
+    ("", ['@import "b.css"; a{x:1}', '@namespace q "v"; q|a{x:1}', '@import "b.css"; @namespace q "v"; q|a{x:1}',
+          "@variables{a:1} a{x:1}"]),
+    ('@import "a.css";', ['@import "b.css"; a{x:1}', '@namespace q "v"; q|a{x:1}', '@import "b.css" print; @namespace "v"; a{x:1}']),
+    ('@charset "utf-8"; @import "a.css";', ['@import "b.css"; a{x:1}', '@namespace q "v"; q|a{x:1}']),
+    ('@namespace p "u";', ['@namespace q "v"; p|a q|b{x:1}', "@variables{a:1} p|a{x:1}", '@namespace p "w"; p|a{x:1}']),
+    ('@import "a.css"; @namespace p "u"; /*c*/', ['@namespace q "v"; q|a{x:1}', "@variables{a:1} p|a{x:1}"]),
+]
+
+
 def gen_misplaced(rng, n):
     cases = []
     for level, junks in MISPLACED.items():
@@ -462,7 +473,7 @@ def oracle(case):
                         "without %r" % (case["level"], what, mw, mo), json.dumps(case, sort_keys=True))
             return None
         elif k == "order":
-            with_, without = _rules(g1 + " " + junk + " " + g2), _rules(g1 + " " + g2)
+            with_, without = _model(g1 + " " + junk + " " + g2), _model(g1 + " " + g2)
             if with_ != without:
                 return ("a junk statement changes the fate of a later @import/@namespace rule", json.dumps(case, sort_keys=True))
             return None
@@ -520,6 +531,12 @@ def gen_triples(rng, n):
         g = [x for x in goods if kind == "top" or not x.startswith("@")]
         cases.append({"kind": kind, "pre": pre, "g1": rng.choice(g), "junk": junk_statement(rng), "g2": rng.choice(g)})
     cases += gen_misplaced(rng, n // 3)
+    # order state: a discarded statement must not change the fate of a later @import / @namespace / @variables
+    skipf = ("@media", "@page", "@font-face", "@variables")      # kept as empty containers: open finding
+    for _ in range(n // 6):
+        g1, g2s = rng.choice(ORDER_CTX)
+        first = rng.choice([f for f in FIRST if f not in skipf])
+        cases.append({"kind": "order", "g1": g1, "junk": junk_statement(rng, first), "g2": rng.choice(g2s)})
     return cases
 
 
@@ -577,6 +594,7 @@ def run_oracle(case):
 def run(ctx):
     thorough = ctx.tier == "thorough"
     rng = ctx.rng
+    ctx.regen("upto")
     ctx.coq_build("props/C04.v")
     binary = ctx.ocaml_build("upto")
     corpus_p = VERIF / "corpus" / "C04.json"
